@@ -799,3 +799,62 @@ Proof.
     destruct (p_index to <=? length src) eqn:B; [|reflexivity].
     apply Nat.leb_le in A, B. rewrite !pos_at_tbl_spec by lia. reflexivity.
 Qed.
+
+(* ================================================================== *)
+(* J. saturating the recorded numbers at length src + 1 does not change any checked predicate *)
+(* ================================================================== *)
+Definition pos_le (n : nat) (p : position) : Prop := p_index p <= n /\ p_line p <= n /\ p_col p <= n.
+
+Lemma until_lf_length p : length (until_lf p) <= length p.
+Proof. induction p as [|b r IH]; cbn; [lia|]. destruct (is_lf b); cbn; lia. Qed.
+
+Lemma filter_len_le {A} (f : A -> bool) l : length (filter f l) <= length l.
+Proof. induction l as [|a r IH]; cbn; [lia|]. destruct (f a); cbn; lia. Qed.
+
+Lemma pos_of_le s i : i <= length s -> pos_le (length s) (pos_of s i).
+Proof.
+  intros H. unfold pos_le, pos_of, count_lf, col_of. cbn [p_index p_line p_col].
+  pose proof (firstn_le_length i s) as L.
+  pose proof (filter_len_le is_lf (firstn i s)) as F.
+  pose proof (until_lf_length (rev (firstn i s))) as U. rewrite rev_length in U. lia.
+Qed.
+
+Lemma sat_pos_id n p : pos_le n p -> sat_pos n p = p.
+Proof. destruct p as [i l c]. unfold pos_le, sat_pos. cbn. intros (A & B & C). rewrite !Nat.min_l by lia. reflexivity. Qed.
+
+Lemma sat_pos_le n p : pos_le n (sat_pos n p) -> pos_le n p.
+Proof. destruct p as [i l c]. unfold pos_le, sat_pos. cbn. lia. Qed.
+
+Lemma eq_pos_of_le s p : p_index p <= length s -> p = pos_of s (p_index p) -> pos_le (length s) p.
+Proof. intros H E. rewrite E. apply pos_of_le. exact H. Qed.
+
+Lemma range_ok_le src e : range_ok src e -> pos_le (length src) (e_from e) /\ pos_le (length src) (e_to e).
+Proof. intros (A & B & C & D & _). split; apply eq_pos_of_le; auto; lia. Qed.
+Lemma name_range_ok_le src name from to : name_range_ok src name from to -> pos_le (length src) from /\ pos_le (length src) to.
+Proof. intros (A & B & C & D & _). split; apply eq_pos_of_le; auto; lia. Qed.
+Lemma plain_range_ok_le src from to : plain_range_ok src from to -> pos_le (length src) from /\ pos_le (length src) to.
+Proof. intros (A & B & C & D). split; apply eq_pos_of_le; auto; lia. Qed.
+
+Lemma bool_eq_iff (a b : bool) : (a = true <-> b = true) -> a = b.
+Proof. destruct a, b; intuition congruence. Qed.
+
+Lemma saturated_checks_equal src :
+  let n := length src in
+  (forall v from to, range_okb src (mkexpr v (sat_pos n from) (sat_pos n to)) = range_okb src (mkexpr v from to)) /\
+  (forall name from to, name_range_okb src name (sat_pos n from) (sat_pos n to) = name_range_okb src name from to) /\
+  (forall from to, plain_range_okb src (sat_pos n from) (sat_pos n to) = plain_range_okb src from to).
+Proof.
+  cbv zeta. split; [|split]; intros; apply bool_eq_iff.
+  - rewrite !range_okb_spec. split; intros H.
+    + destruct (range_ok_le _ _ H) as [A B]. cbn [e_from e_to] in A, B.
+      apply sat_pos_le in A, B. rewrite !sat_pos_id in H by assumption. exact H.
+    + destruct (range_ok_le _ _ H) as [A B]. cbn [e_from e_to] in A, B. rewrite !sat_pos_id by assumption. exact H.
+  - rewrite !name_range_okb_spec. split; intros H.
+    + destruct (name_range_ok_le _ _ _ _ H) as [A B].
+      apply sat_pos_le in A, B. rewrite !sat_pos_id in H by assumption. exact H.
+    + destruct (name_range_ok_le _ _ _ _ H) as [A B]. rewrite !sat_pos_id by assumption. exact H.
+  - rewrite !plain_range_okb_spec. split; intros H.
+    + destruct (plain_range_ok_le _ _ _ H) as [A B].
+      apply sat_pos_le in A, B. rewrite !sat_pos_id in H by assumption. exact H.
+    + destruct (plain_range_ok_le _ _ _ H) as [A B]. rewrite !sat_pos_id by assumption. exact H.
+Qed.
